@@ -40,7 +40,7 @@ theorem new_otk_block0_data_block1 (D : CipherDeps E R key nonce At) :
 /-! ## the MAC input, for ANY history of calls -/
 
 /-- For every history of `add_data` / `to_encryption` / `to_decryption` / `encrypt` / `encrypt_mut` / `decrypt` /
-    `decrypt_mut` calls that the API admits (abstract machine `absRun`: `a.aad` = concatenation of the `add_data`
+    `decrypt_mut` calls that the API allows (abstract machine `absRun`: `a.aad` = concatenation of the `add_data`
     arguments, `a.ct` = concatenation of the ciphertext pieces), the model runs without panic, emits what the
     abstract machine emits, its Poly1305 object has absorbed exactly `aad ‖ pad16(aad) ‖ ct`, and `finalize_raw`
     completes this to `mac_data = aad ‖ pad16 ‖ ct ‖ pad16 ‖ le64|aad| ‖ le64|ct|` and returns its Poly1305 tag
@@ -310,7 +310,7 @@ set_option maxRecDepth 100000 in
 /-- an instance of what `MacDeps.mac_eq` asserts (two chunks, the second one partial) -/
 example : (match Poly1305.mac Poly1305.codeVariant tKey [tPt.take 37, tPt.drop 37] with
     | .ok t => decide (t = Spec.Poly1305.mac tKey tPt) | .error _ => false) = true := by decide +kernel
-/-- a history that `absRun` admits, ending in the encryption phase (hypotheses of `mac_input_any_history`) -/
+/-- a history that `absRun` allows, ending in the encryption phase (hypotheses of `mac_input_any_history`) -/
 example : ∃ a outs, absRun 20 tKey tNonce ⟨.aad, [], []⟩ [.addData [1, 2], .toEnc, .encryptMut [3]] = some (a, outs) ∧
     a.phase = .enc ∧ a.aad = [1, 2] ∧ a.ct.length = 1 := ⟨_, _, rfl, rfl, rfl, by simp [encrypt_length, Spec.ChaCha.encrypt]⟩
 
